@@ -2,6 +2,8 @@
 """Confirms sub-agent seeded changes in ONE scratch worktree of /repo HEAD (outside /repo and /verif):
 clean tree + demo passes; with patch: builds, full suite passes, demo fails. Writes /tmp/seedout/validation.json."""
 import json, os, re, subprocess, sys, glob, shutil, time
+SEEDOUT = os.environ.get("SEEDOUT", "/tmp/seedout")
+SUFFIX = os.environ.get("SEED_SUFFIX", "")
 ENV = dict(os.environ, GOFLAGS="-mod=mod", GOPROXY="off", GOSUMDB="off", GOTOOLCHAIN="local"); ENV.pop("GOWORK", None)
 WT = "/tmp/seedval"
 def sh(cmd, cwd=WT, timeout=600):
@@ -15,9 +17,9 @@ def clean():
 subprocess.run("git -C /repo worktree remove --force %s 2>/dev/null; git -C /repo worktree add -q --detach %s HEAD" % (WT, WT), shell=True, check=True)
 only = sys.argv[1:]
 out = {}
-if os.path.exists("/tmp/seedout/validation.json"):
-    out = json.load(open("/tmp/seedout/validation.json"))
-for d in sorted(glob.glob("/tmp/seedout/C*")):
+if os.path.exists(os.path.join(SEEDOUT, "validation.json")):
+    out = json.load(open(os.path.join(SEEDOUT, "validation.json")))
+for d in sorted(glob.glob(SEEDOUT + "/C*")):
     prop = os.path.basename(d)
     for m in ("m1", "m2"):
         key = prop + "-" + m
@@ -57,5 +59,5 @@ for d in sorted(glob.glob("/tmp/seedout/C*")):
         out[key] = res
         clean()
         print(key, "OK" if res["ok"] else "NOT-OK", {k: v for k, v in res.items() if k.endswith("_rc")}, flush=True)
-        json.dump(out, open("/tmp/seedout/validation.json", "w"), indent=1)
+        json.dump(out, open(os.path.join(SEEDOUT, "validation.json"), "w"), indent=1)
 subprocess.run("git -C /repo worktree remove --force %s" % WT, shell=True)
